@@ -98,22 +98,22 @@ template<class B> static typename B::Iterator nthIter(B& b, typename B::Params& 
 {
 	auto bounds = b.GetBounds(pa); auto it = bounds.GetBegin(); for (size_t t = 0; t < j; ++t) ++it; return it;
 }
-static void runBopsO2(const std::vector<BOp>& ops)
+template<size_t M> static void runBopsO2(const std::vector<BOp>& ops)
 {
-	typedef O2<3> B; Raw<B> r; MemManagerDefault mm; B::Params pa(mm);
-	for (size_t i = 0; i < 3; ++i) r.b->mHashData.hashProbes[i] = 0;   // the constructor leaves them uninitialised (the memset in Raw() may be elided as a dead store)
+	typedef O2<M> B; Raw<B> r; MemManagerDefault mm; typename B::Params pa(mm);
+	for (size_t i = 0; i < M; ++i) r.b->mHashData.hashProbes[i] = 0;   // the constructor leaves them uninitialised (the memset in Raw() may be elided as a dead store)
 	for (auto& o : ops)
 	{
 		size_t cnt = r.b->pvGetCount();
-		if (o.k == 'A') { if (cnt >= 3) { puts("stuck"); return; } ull v = o.a; r.b->AddCrt(pa, [v] (uint64_t* p) { *p = v; }, size_t(o.a), size_t(o.b), size_t(o.c)); }
+		if (o.k == 'A') { if (cnt >= M) { puts("stuck"); return; } ull v = o.a; r.b->AddCrt(pa, [v] (uint64_t* p) { *p = v; }, size_t(o.a), size_t(o.b), size_t(o.c)); }
 		else if (o.k == 'R') { if (o.a >= cnt) { puts("stuck"); return; } r.b->Remove(pa, nthIter(*r.b, pa, size_t(o.a)), [] (uint64_t& src, uint64_t& dst) { dst = src; }); }
 		else if (o.k == 'U') r.b->UpdateMaxProbe(size_t(o.a));
 		else r.b->Clear(pa);
 	}
-	printf("%u %u %u %u %u %u %u %u %llu %llu\n", unsigned(r.b->mState[0]), unsigned(r.b->mState[1]),
-		unsigned(r.b->mHashData.shortHashes[0]), unsigned(r.b->mHashData.shortHashes[1]), unsigned(r.b->mHashData.shortHashes[2]),
-		unsigned(r.b->mHashData.hashProbes[0]), unsigned(r.b->mHashData.hashProbes[1]), unsigned(r.b->mHashData.hashProbes[2]),
-		ull(r.b->pvGetCount()), ull(r.b->GetMaxProbe(0)));
+	printf("%u %u ", unsigned(r.b->mState[0]), unsigned(r.b->mState[1]));
+	for (size_t i = 0; i < M; ++i) printf("%u ", unsigned(r.b->mHashData.shortHashes[i]));
+	for (size_t i = 0; i < M; ++i) printf("%u ", unsigned(r.b->mHashData.hashProbes[i]));
+	printf("%llu %llu\n", ull(r.b->pvGetCount()), ull(r.b->GetMaxProbe(0)));
 }
 template<class B, size_t M> static void runBopsN1(size_t L, const std::vector<BOp>& ops)
 {
@@ -180,7 +180,7 @@ int main()
 				if (v.size() > 0) o.a = v[0]; if (v.size() > 1) o.b = v[1]; if (v.size() > 2) o.c = v[2];
 				ops.push_back(o);
 			}
-			if (kind == "o2") runBopsO2(ops);
+			if (kind == "o2") { if (m == 1) runBopsO2<1>(ops); else if (m == 2) runBopsO2<2>(ops); else runBopsO2<3>(ops); }
 			else if (kind == "n1f") switch (m) {
 			case 1: runBopsN1<N1F<1>, 1>(L, ops); break; case 2: runBopsN1<N1F<2>, 2>(L, ops); break;
 			case 3: runBopsN1<N1F<3>, 3>(L, ops); break; case 4: runBopsN1<N1F<4>, 4>(L, ops); break;
